@@ -188,6 +188,12 @@ func init() {
 				js = append(js, &Job{Pkg: pkgConfig, Func: "VerifC09Env", Args: []int64{mask, 0, 0}, Timeout: 20 * time.Minute})
 			}
 			js = append(js, &Job{Pkg: pkgConfig, Func: "VerifC09Env", Args: []int64{mask, 1, 0}, Timeout: 20 * time.Minute})
+			// values = 2 arbitrary printable bytes per level (unit-string encoding: pure bit-vector reasoning)
+			js = append(js, &Job{Pkg: pkgConfig, Func: "VerifC09Env", Args: []int64{mask, 1, 2}, Timeout: 20 * time.Minute})
+			if tier == "thorough" {
+				js = append(js, &Job{Pkg: pkgConfig, Func: "VerifC09Env", Args: []int64{mask, 1, 3}, Timeout: 20 * time.Minute})
+				js = append(js, &Job{Pkg: pkgConfig, Func: "VerifC09Env", Args: []int64{mask, 1, 1}, Timeout: 20 * time.Minute})
+			}
 		}
 		for mask := int64(0); mask < 8; mask++ {
 			if mask&1 == 0 {
@@ -200,10 +206,10 @@ func init() {
 	register(&PropSpec{ID: "C09", Jobs: c09jobs,
 		Covers: []string{"C09.command-saw-environment", "C09.two-levels-define-the-name", "C09.dir-checked"},
 		Bounds: map[string]interface{}{
-			"quick":    "one name defined at every subset of the six levels (64 subsets as stages, 32 as direct runs), each level's value an independent symbolic member of {a, m, z} (so higher levels sort below, equal to and above lower ones), one unrelated parent variable; directories: every subset of stage/task/context dir, direct and as a stage, for the before hook, the command and the after hook",
-			"thorough": "same as quick (free-string values of length <= 2 were tried: the mixed string/bit-vector queries did not finish within 20 minutes in z3 5.1.0, so that bound is not registered)",
+			"quick":    "one name defined at every subset of the six levels (64 subsets as stages, 32 as direct runs), each level's value an independent symbolic member of {a, m, z} (so higher levels sort below, equal to and above lower ones) and, as stages, each level's value 2 ARBITRARY printable bytes (every order relation, '=' inside values included); one unrelated parent variable; directories: every subset of stage/task/context dir, direct and as a stage, for the before hook, the command and the after hook",
+			"thorough": "additionally values of 1 and of 3 arbitrary printable bytes",
 		},
-		Outside:     []string{"how mvdan.cc/sh exports the Environ to child processes", "template-valued directories (utils.RenderString stubbed as identity)", "values outside the three-element ordered domain {a, m, z} (all order relations between levels are covered; arbitrary strings are not)", "the env_file parser (utils.ReadEnvFile stubbed to return the map; its crashes are C15)"},
+		Outside:     []string{"how mvdan.cc/sh exports the Environ to child processes", "template-valued directories (utils.RenderString stubbed as identity)", "values longer than 3 bytes or with non-printable bytes", "the env_file parser (utils.ReadEnvFile stubbed to return the map; its crashes are C15)"},
 		Assumptions: []string{"stubs: os.Environ, os.Getwd, utils.ReadEnvFile, utils.RenderString (identity), mvdan syntax.Parser.Parse and interp.New/StdIO/Runner.Run (records Env and Dir)", "executed for real: config.buildTask/buildPipeline/buildContext, TaskRunner.Run, TaskCompiler, Scheduler.Schedule/runStage (thread mode), DefaultExecutor.Execute, utils.ConvertEnv, mvdan expand.ListEnviron + listEnviron.Get", "sort.Strings modelled as a compare-exchange network over str.<"},
 		Replay:      map[string]*ReplaySpec{"*": {PkgDir: "internal/config", File: "C09_replay_test.go", Test: "TestVerifReplayC09"}}})
 
